@@ -33,4 +33,17 @@ def Acyclic (G : MG α) : Prop := ∀ v, ¬ Relation.TransGen G.DiEdge v v
 def IsTopoOrder (G : MG α) (l : List α) : Prop :=
   l.Perm G.nodes ∧ ∀ u v, G.DiEdge u v → ∃ l₁ l₂ l₃, l = l₁ ++ u :: l₂ ++ v :: l₃
 
+/-- `G.DiPath a p b`: `p = [a, …, b]` is the node sequence of a directed walk from `a` to `b`
+(`[a]` is the walk without edges from `a` to itself).  It is a *simple* path when `p.Nodup`. -/
+inductive DiPath (G : MG α) : α → List α → α → Prop
+  | single (a : α) : DiPath G a [a] a
+  | cons {a b c : α} {p : List α} : G.DiEdge a b → DiPath G b p c → DiPath G a (a :: p) c
+
+/-- the mathematical content of `get_nodes_in_directed_paths(G, S, T)`: `v` lies on a simple directed path `p`
+from a member of `S` to a member of `T`.  `minLen` is the least number of nodes of the paths that count:
+the implementation for acyclic graphs counts paths with at least one edge (`minLen = 2`), the one for cyclic
+graphs (`nx.all_simple_paths`) also the trivial path `[s]` for `s ∈ S ∩ T` (`minLen = 1`). -/
+def OnSimpleDiPath (G : MG α) (minLen : Nat) (S T : List α) (v : α) : Prop :=
+  ∃ s ∈ S, ∃ t ∈ T, ∃ p, G.DiPath s p t ∧ p.Nodup ∧ minLen ≤ p.length ∧ v ∈ p
+
 end Y0.MG
